@@ -19,7 +19,19 @@ pub enum Case {
     /// very long rejection histories: whole inner loops are rejected (`phases`: (loops, accept))
     /// until whatever the adaptation does with a step that nothing accepts has happened, then
     /// loops are accepted again.  Runs of 1e9 proposals: a lean state, no trace monitor.
-    Freeze { inner: u64, phases: Vec<(u64, bool)>, max_step_size: f64, k: usize, seed: u64 },
+    Freeze {
+        inner: u64,
+        phases: Vec<(u64, bool)>,
+        max_step_size: f64,
+        k: usize,
+        seed: u64,
+        /// Some(c): in rejecting phases every (c+1)-th loop accepts its first proposal (an
+        /// improvement) and rejects the rest - a run that keeps just short of `convergence`
+        #[serde(default)]
+        cadence: Option<u64>,
+        #[serde(default)]
+        convergence: Option<f64>,
+    },
 }
 
 /// lean state for the freeze runs: the score is undefined in rejecting loops and grows with
@@ -37,6 +49,7 @@ struct FreezeCore {
     worst_bits: std::sync::atomic::AtomicU64,
     worst_call: std::sync::atomic::AtomicU64,
     multi: std::sync::atomic::AtomicU64,
+    cadence: Option<u64>,
 }
 const FREEZE_HALF_RANGE: f64 = 1.0;
 impl State for FreezeState {
@@ -67,7 +80,11 @@ impl State for FreezeState {
             c.worst_bits.store(worst.to_bits(), Relaxed);
             c.worst_call.store(n, Relaxed);
         }
-        let accept = c.phases.iter().rev().find(|(from, _)| n >= *from).map(|p| p.1).unwrap_or(true);
+        let mut accept = c.phases.iter().rev().find(|(from, _)| n >= *from).map(|p| p.1).unwrap_or(true);
+        if let (false, Some(cad)) = (accept, c.cadence) {
+            let l = (n - 1) / c.inner;
+            accept = l % (cad + 1) == cad && (n - 1) % c.inner == 0;
+        }
         if accept {
             for (v, a) in self.vals.iter().zip(c.accepted.iter()) {
                 a.store(v.get_value().to_bits(), Relaxed);
@@ -128,8 +145,12 @@ impl packing::traits::ToSVG for FreezeState {
 fn check_freeze(c: &Case, st: &mut Stats) {
     use std::sync::atomic::{AtomicU64, Ordering::Relaxed};
     let (inner, phases, max_step_size, k, seed) = match c {
-        Case::Freeze { inner, phases, max_step_size, k, seed } => (*inner, phases, *max_step_size, *k, *seed),
+        Case::Freeze { inner, phases, max_step_size, k, seed, .. } => (*inner, phases, *max_step_size, *k, *seed),
         _ => return,
+    };
+    let (cadence, convergence) = match c {
+        Case::Freeze { cadence, convergence, .. } => (*cadence, *convergence),
+        _ => (None, None),
     };
     st.eval();
     let loops: u64 = phases.iter().map(|p| p.0).sum();
@@ -147,9 +168,10 @@ fn check_freeze(c: &Case, st: &mut Stats) {
         worst_bits: AtomicU64::new(0f64.to_bits()),
         worst_call: AtomicU64::new(0),
         multi: AtomicU64::new(0),
+        cadence,
     });
     let state = FreezeState { vals: (0..k).map(|_| packing::SharedValue::new(0.)).collect(), core: core.clone() };
-    let cfg = OptCfg { steps: loops * inner, inner_steps: inner, kt_start: 0., kt_finish: None, kt_ratio: Some(0.), max_step_size, seed, convergence: None, builder_history: None };
+    let cfg = OptCfg { steps: loops * inner, inner_steps: inner, kt_start: 0., kt_finish: None, kt_ratio: Some(0.), max_step_size, seed, convergence, builder_history: None };
     let b = match cfg.builder() {
         Ok(b) => b,
         Err(e) => {
@@ -196,7 +218,21 @@ fn check_freeze(c: &Case, st: &mut Stats) {
 /// fall by `decades` powers of ten, then accepting loops, then both again
 fn freeze_case(inner: u64, decades: f64, seed: u64) -> Case {
     let n = (decades * std::f64::consts::LN_10 * (inner as f64 + 1.)).ceil() as u64 + 2;
-    Case::Freeze { inner, phases: vec![(n, false), (3, true), (40, false), (3, true)], max_step_size: [1., 0.5, 0.01][(seed % 3) as usize], k: 3, seed }
+    Case::Freeze { inner, phases: vec![(n, false), (3, true), (40, false), (3, true)], max_step_size: [1., 0.5, 0.01][(seed % 3) as usize], k: 3, seed, cadence: None, convergence: None }
+}
+
+/// the same with a convergence threshold set: the run stalls for `cad` (1..5) fully rejected
+/// loops at a time and then improves once, so that it never converges while the step keeps
+/// shrinking; then one stalled loop, accepting loops, and both again
+fn stalled_freeze_case(inner: u64, decades: f64, cad: u64, seed: u64) -> Case {
+    let n = (decades * std::f64::consts::LN_10 * (inner as f64 + 1.)).ceil() as u64 + 2;
+    // only cad of every cad+1 loops shrink the step
+    let mut total = n * (cad + 1) / cad + cad + 2;
+    // end the rejecting phase on a stalled loop
+    while total % (cad + 1) == 0 {
+        total += 1;
+    }
+    Case::Freeze { inner, phases: vec![(total, false), (3, true), (cad + 1, false), (2, true), (2 * (cad + 1), false), (2, true)], max_step_size: [1., 0.5, 0.01][(seed % 3) as usize], k: 3, seed, cadence: Some(cad), convergence: Some(0.5) }
 }
 
 fn cfg_of(c: &Case) -> &OptCfg {
@@ -331,7 +367,7 @@ pub fn gen_case<R: Rng>(rng: &mut R, real: bool) -> Case {
 }
 
 pub fn run(ctx: &Ctx) {
-    ctx.set_rule("every proposal of optimise_state is measured against every possible current state (trace monitor): its single changed parameter may move by at most max_step_size x half the parameter's range (ranges: the chosen bounds of scripted states; for real hard/LJ states the ranges declared by the property at stage start). Rejection histories are forced by scripts (0/50/75/99/100% rejection per loop, reject runs, alternation, undefined scores), 1..50 inner loops (the step adaptation acts between loops), steps 1e-8..1, k = 1..24 parameters, all temperatures. Plus freeze-and-release runs on a lean state (no trace monitor, moves measured against the last accepted vector): every loop rejected for as many loops as it takes a step that shrinks by inner/(inner+1) per rejected loop to fall by 2-8 decades, then accepting loops, then both again - loops of 1..300 proposals, and loops of more than 10^4 proposals (about 1e9 proposals per run). Non-trivial = runs with >= 3 inner loops; distinct by case");
+    ctx.set_rule("every proposal of optimise_state is measured against every possible current state (trace monitor): its single changed parameter may move by at most max_step_size x half the parameter's range (ranges: the chosen bounds of scripted states; for real hard/LJ states the ranges declared by the property at stage start). Rejection histories are forced by scripts (0/50/75/99/100% rejection per loop, reject runs, alternation, undefined scores), 1..50 inner loops (the step adaptation acts between loops), steps 1e-8..1, k = 1..24 parameters, all temperatures. Plus freeze-and-release runs on a lean state (no trace monitor, moves measured against the last accepted vector): every loop rejected for as many loops as it takes a step that shrinks by inner/(inner+1) per rejected loop to fall by 2-8 decades, then accepting loops, then both again - loops of 1..300 proposals, and loops of more than 10^4 proposals (about 1e9 proposals per run); the same with a convergence threshold set and the run kept just short of it (1-5 stalled loops, then one improvement, again and again). Non-trivial = runs with >= 3 inner loops; distinct by case");
     let n_s = ctx.tier.pick(70u64, 3_500u64);
     let n_r = ctx.tier.pick(6u64, 250u64);
     let prev = std::panic::take_hook();
@@ -344,6 +380,21 @@ pub fn run(ctx: &Ctx) {
         for _ in 0..tier.pick(3u64, 40u64) {
             let inner = [1u64, 2, 3, 10, 50, 300][rng.gen_range(0, 6)];
             check(&freeze_case(inner, rng.gen_range(2., 8.), rng.gen()), st);
+        }
+        for _ in 0..tier.pick(2u64, 20u64) {
+            let inner = [1u64, 2, 3, 10, 50, 300][rng.gen_range(0, 6)];
+            check(&stalled_freeze_case(inner, rng.gen_range(2., 8.), rng.gen_range(1, 6), rng.gen()), st);
+        }
+        let long_stalled = match tier {
+            Tier::Quick => i == 1,
+            Tier::Thorough => i >= 16 && i < 24,
+        };
+        if long_stalled {
+            let inner = match tier {
+                Tier::Quick => rng.gen_range(10_050, 10_400),
+                Tier::Thorough => rng.gen_range(10_050, 16_000),
+            };
+            check(&stalled_freeze_case(inner, 4.02, 5, rng.gen()), st);
         }
         let long = match tier {
             Tier::Quick => i == 0,
